@@ -4,6 +4,8 @@
       (spec/EbDecoder.tla, a transcription of MeshEdgebreakerDecoderImpl::DecodeConnectivity) predicts reject:<guard> / accept(points, faces) /
       ub:<table indexed with an invalid id> for each.  Invariant Guards: whatever the guards accept is structurally valid.
       drv_fault hostile assembles every row into a real Draco 2.2 stream and decodes it under ASan+UBSan(+libstdc++ assertions).
+      MC_SeqDecoder / spec/SeqDecoder.tla: the same for the sequential mesh connectivity decoder (declared points / faces, stored indices in every
+      width, compressed index differences).
   (2) nested metadata: a chain of D sub-metadata blocks, D around and far above kMaxSubmetadataLevel, in front of corpus geometries.
   Records are validated by Trace_Fault (Level A of C02 or C03; the model's predictions only as drift).
 """
@@ -20,6 +22,13 @@ def rows_for(tier, wd):
     if r["violated"]:
         return r, None
     rows = vlib.tlc_prints(r["out"])
+    # the sequential mesh connectivity decoder (module SeqDecoder): declared counts x method x index / symbol lists
+    r2 = vlib.tlc("MC_SeqDecoder", cfg="MC_SeqDecoder_%s.cfg" % tier, specdir=MC, workers=16, xmx="24g", timeout=6000)
+    vlib.tlc_ok(r2, "MC_SeqDecoder " + tier)
+    if r2["violated"]:
+        return r2, None
+    rows += vlib.tlc_prints(r2["out"])
+    r["seq"] = r2
     f = os.path.join(wd, "eb_rows.ndjson")
     vlib.write_ndjson(f, rows)
     return r, f
@@ -31,10 +40,11 @@ def run(v, tier, seed, wd, prop="C02"):
     r, rowf = rows_for(tier, wd)
     if rowf is None:
         # the model's own guards accept a structurally invalid connectivity: a design-level counterexample; the replay below cannot run without rows
-        v.violation({"what": "MC_EbDecoder: the transcribed guards accept a connectivity whose faces name missing vertices (invariant Guards)", "tlc": r["out"][-1500:]},
+        v.violation({"what": "MC_EbDecoder / MC_SeqDecoder: the transcribed guards accept a connectivity whose faces name missing vertices (invariant Guards)", "tlc": r["out"][-1500:]},
                     tags={"kind": "model_guards"})
         return
     v.add_tlc("MC_EbDecoder_" + tier, r)
+    v.add_tlc("MC_SeqDecoder_" + tier, r["seq"])
     if tier != "quick":
         # deeper design checks of the guards without replay: longer strings, pairs of split events
         for cfg in ("guards6", "guards5p"):
